@@ -48,10 +48,8 @@ def compare(image, data, eng):
                     out.append(pre + "field %s args %s expected %s" % (n, sw.canon_args([sw.arg_image(x) for x in g["args"]]), sw.canon_args(f["args"])))
                 if bool(g["isDeprecated"]) != bool(f["dep"]):
                     out.append(pre + "field %s isDeprecated %r expected %r" % (n, g["isDeprecated"], f["dep"]))
-                if f["dep"] and f["reason"] and g.get("deprecationReason") != f["reason"]:
-                    out.append(pre + "field %s deprecationReason %r expected %r" % (n, g.get("deprecationReason"), f["reason"]))
-                if f["dep"] and not isinstance(g.get("deprecationReason"), str):
-                    out.append(pre + "deprecated field %s has no reason" % n)
+                if f["dep"] and sw.expected_reason(f["reason"], g.get("deprecationReason")) is not None:
+                    out.append(pre + "field %s deprecationReason %r expected %s" % (n, g.get("deprecationReason"), sw.expected_reason(f["reason"], g.get("deprecationReason"))))
                 if not f["dep"] and g.get("deprecationReason") is not None:
                     out.append(pre + "field %s has a deprecation reason but is not deprecated" % n)
             nondep = {n for n, f in ef.items() if not f["dep"]}
@@ -76,8 +74,10 @@ def compare(image, data, eng):
                 g = av.get(n)
                 if g and bool(g["isDeprecated"]) != bool(v["dep"]):
                     out.append(pre + "enum value %s isDeprecated %r expected %r" % (n, g["isDeprecated"], v["dep"]))
-                if g and v["dep"] and v["reason"] and g.get("deprecationReason") != v["reason"]:
-                    out.append(pre + "enum value %s reason %r expected %r" % (n, g.get("deprecationReason"), v["reason"]))
+                if g and v["dep"] and sw.expected_reason(v["reason"], g.get("deprecationReason")) is not None:
+                    out.append(pre + "enum value %s reason %r expected %s" % (n, g.get("deprecationReason"), sw.expected_reason(v["reason"], g.get("deprecationReason"))))
+                if g and not v["dep"] and g.get("deprecationReason") is not None:
+                    out.append(pre + "enum value %s has a deprecation reason but is not deprecated" % n)
             got = {v["name"] for v in (a.get("enumDefault") or [])}
             if got != {n for n, v in ev.items() if not v["dep"]}:
                 out.append(pre + "enumValues (default) = %s expected the non-deprecated ones" % sorted(got))
